@@ -290,7 +290,7 @@ var (
 	}
 	// Finds maximal value among inputs and return it
 	maxModule = func(inputs []float64, auxParams []float64) []float64 {
-		maxVal := float64(math.MinInt64)
+		maxVal := math.Inf(-1)
 		for _, v := range inputs {
 			maxVal = math.Max(maxVal, v)
 		}
